@@ -474,7 +474,7 @@ mod if_alloc {
         /// Verification hook: keeps the shared state alive and observable
         /// without being a sender or receiver handle.
         #[cfg(futures_intrusive_verif)]
-        pub struct VerifPeek<MutexType, T>
+        pub struct OneshotBroadcastVerifPeek<MutexType, T>
         where
             MutexType: RawMutex,
             T: Clone + 'static,
@@ -483,7 +483,7 @@ mod if_alloc {
         }
 
         #[cfg(futures_intrusive_verif)]
-        impl<MutexType, T> VerifPeek<MutexType, T>
+        impl<MutexType, T> OneshotBroadcastVerifPeek<MutexType, T>
         where
             MutexType: RawMutex,
             T: Clone + 'static,
@@ -502,8 +502,8 @@ mod if_alloc {
             T: Clone + 'static,
         {
             /// Verification hook: an uncounted reference to the shared state
-            pub fn verif_peek(&self) -> VerifPeek<MutexType, T> {
-                VerifPeek {
+            pub fn verif_peek(&self) -> OneshotBroadcastVerifPeek<MutexType, T> {
+                OneshotBroadcastVerifPeek {
                     inner: self.inner.clone(),
                 }
             }
